@@ -8,7 +8,7 @@ mkdir -p bin build evidence replays
 (cd mcrt && go vet ./... && go test -count=1 ./explore/)
 # first generation + build so that checks only pay incremental cost
 ./bin/mcgen -src /repo -out build/gen/mpb
-./bin/mcgen -src scen -out build/gen/scen -replace "github.com/vbauerster/mpb/v8=>/verif/build/gen/mpb"
+./bin/mcgen -nofuel -src scen -out build/gen/scen -replace "github.com/vbauerster/mpb/v8=>/verif/build/gen/mpb"
 (cd mc && go build -o /verif/build/mc-setup . && rm -f /verif/build/mc-setup)
 (cd realrepro && go vet ./... >/dev/null 2>&1 || true)
 echo "setup ok"
